@@ -1,4 +1,5 @@
 /* fiber-regime driver extension: fiber_barrier (property C12) */
+#include <stdio.h>
 #include <stdlib.h>
 #include <string.h>
 #include "drv_ext.h"
@@ -10,18 +11,27 @@ static void dec_tailf0(const void* base, char* out, size_t cap) { vrt_mpsc_tailf
 static void dec_q1(const void* base, char* out, size_t cap) { vrt_mpsc_q(&((const fiber_barrier_t*)base)->waiters[1], out, cap); }
 static void dec_tailf1(const void* base, char* out, size_t cap) { vrt_mpsc_tailf(&((const fiber_barrier_t*)base)->waiters[1], out, cap); }
 
+/* counter rendered relative to a preset base (VRT_BARRIER_BASE, a multiple of 2*count) so that
+ * scenarios can start just below 2^32 and cross it */
+static uint64_t g_base;
+static void dec_counter(const void* base, char* out, size_t cap) {
+  snprintf(out, cap, "%lld", (long long)((uint64_t)((const fiber_barrier_t*)base)->counter - g_base));
+}
 static int b_obj(const char* kind, const char* name, long arg, void** obj) {
   if (strcmp(kind, "barrier")) return 0;
   fiber_barrier_t* b = calloc(1, sizeof *b);
   fiber_barrier_init(b, (uint32_t)arg);
+  g_base = (uint64_t)strtoull(vrt_getenv("VRT_BARRIER_BASE", "0"), NULL, 10);
+  b->counter = g_base;
   static const vrt_field_t f[] = {
-      {"counter", offsetof(fiber_barrier_t, counter), 8, VD_U64, 0, 0},
+      {"ctr", offsetof(fiber_barrier_t, counter), sizeof(((fiber_barrier_t*)0)->counter), VD_U32, VF_NOEPOCH, 0}, /* scheduling point */
+      {"counter", 0, 0, VD_CUSTOM, 0, dec_counter},
       {"q0", 0, 0, VD_CUSTOM, 0, dec_q0},
       {"tailf0", 0, 0, VD_CUSTOM, 0, dec_tailf0},
       {"q1", 0, 0, VD_CUSTOM, 0, dec_q1},
       {"tailf1", 0, 0, VD_CUSTOM, 0, dec_tailf1},
   };
-  vrt_reg_obj(name, b, sizeof *b, f, 5);
+  vrt_reg_obj(name, b, sizeof *b, f, 6);
   *obj = b;
   return 1;
 }
